@@ -8,9 +8,9 @@ BUDGET = {"quick": 1500, "thorough": 30000}
 LEVEL_TEXT = ("Lean theorems: C09_keys_full_holds (a key is accepted iff some line of the file carries it, for every file), "
               "C09_password_decision (password logins granted exactly in the three documented cases), C09_health_only; tied to "
               "the code by running the real verifyAuthorizedKeys on generated key files (per-line oracle from ssh.ParseAuthorizedKey), "
-              "the real password Callback with generated job configurations, and a real server-side health session; c09.pwseq: several password logins in a row against one server value and one job configuration (nothing a server keeps between handshakes may change a decision); c09.callback: the real PublicKeyCallback, which finds and reads the key file itself (cached copy present, a directory in its place, missing); tie G: Server.Callback and backgroundCanSSH of internal/server/server.go are translated on every run (index expressions guarded) and C09_generated_callback_grants_exactly proves that the translated callback never panics and grants exactly the three documented cases, for every configuration and every behaviour of user.New and net.LookupIP; the driver also runs the translated callback on every password case")
+              "the real password Callback with generated job configurations, and a real server-side health session; c09.pwseq: several password logins in a row against one server value and one job configuration (nothing a server keeps between handshakes may change a decision); c09.callback: the real PublicKeyCallback, which finds and reads the key file itself (cached copy present, a directory in its place, missing); tie G: Server.Callback and backgroundCanSSH of internal/server/server.go are translated on every run (index expressions guarded) and C09_generated_callback_grants_exactly proves that the translated callback never panics and grants exactly the three documented cases, for every configuration and every behaviour of user.New and net.LookupIP; the driver also runs the translated callback on every password case; likewise verifyAuthorizedKeys of internal/ssh/server/publickeycallback.go (unit Keys; ssh.ParseAuthorizedKey a parameter, the loop on fuel): C09_generated_key_check_accepts_exactly_listed — under the parser's contract the translated check grants exactly when some line carries the offered key; c09.keys runs the translated check beside the model")
 # translated packages (tie G) this property's theorems rest on
-GEN_UNITS = ("Auth",)
+GEN_UNITS = ("Auth", "Keys")
 TRUSTED = ["Lean 4 kernel", "axioms: propext, Quot.sound, Classical.choice (at most)", "fact extractor (service user names)", "Go->Lean translator (unit Auth) with its prelude GoRT: user.New, net.LookupIP, the configured job lists and the ConnMetadata accessors are parameters of the theorem",
            "overlay harness + dtmodel driver + this diff",
            "modelled not verified: golang.org/x/crypto/ssh (signature verification of the offered key, ParseAuthorizedKey's skip-to-first-key "
